@@ -4,6 +4,7 @@ import (
 	"encoding/json"
 	"fmt"
 	"math/rand"
+	"os"
 	"strings"
 	"sync"
 	"time"
@@ -158,14 +159,35 @@ func (l *lab) reloadLabelled(kind string, timeout bool) (bool, int, error) {
 
 // c05Chain runs a sequential chain of mixed reloads and checks rule (v): a partial
 // reload acts on the database last switched to, failures change nothing.
-func c05Chain(r *report.Run, b harness.Backend, seed int64, n int) {
+func c05Chain(r *report.Run, b harness.Backend, seed int64, n int, viaControl bool) {
 	rng := rand.New(rand.NewSource(seed))
-	l, err := newLab(b, harness.ServerOpts{Cache: rng.Intn(2) == 0}, 500)
+	opt := harness.ServerOpts{Cache: rng.Intn(2) == 0}
+	ctrl := ""
+	if viaControl {
+		ctrl = harness.NewDir("c05ctrl-" + b.Name)
+		defer os.RemoveAll(ctrl)
+		opt.ControlPath = ctrl
+	}
+	l, err := newLab(b, opt, 500)
 	if err != nil {
 		r.Inconclusive("lab: " + err.Error())
 		return
 	}
 	defer l.close()
+	if viaControl {
+		// the operator's interface: reload/switchdb files renamed into the control directory, consumed by the watcher
+		// and the ReloadChan consumer as the production constructor wires them; a successful reload removes the file,
+		// and from that moment on every query must be answered from the new generation
+		h := l.srv.H
+		go func() {
+			for sig := range h.ReloadChan {
+				h.Reload(sig)
+			}
+		}()
+		go h.WatchControlDirAndReload()
+		time.Sleep(100 * time.Millisecond)
+		l.viaControl = ctrl
+	}
 	initial := l.gen
 	kinds := []string{"full-ok", "partial-ok", "partial-ok", "full-missing-path", "full-unreadable", "full-novalidation", "full-ok"}
 	var seq []string
@@ -176,6 +198,13 @@ func c05Chain(r *report.Run, b harness.Backend, seed int64, n int) {
 		if err != nil {
 			r.Inconclusive(fmt.Sprintf("%s: preparing reload %s: %v", b.Name, k, err))
 			return
+		}
+		if viaControl && !ok && strings.HasSuffix(k, "-ok") {
+			r.Inconclusive(fmt.Sprintf("%s: control file of reload %s not consumed within the wait", b.Name, k))
+			return
+		}
+		if viaControl && strings.HasSuffix(k, "-ok") {
+			r.Count("chain_reloads_requested_through_control_files", 1)
 		}
 		wantOK := strings.HasSuffix(k, "-ok")
 		if ok != wantOK {
@@ -196,7 +225,7 @@ func c05Chain(r *report.Run, b harness.Backend, seed int64, n int) {
 }
 
 func runC05(r *report.Run) {
-	r.SetRule("every record of generation g carries the stamp g (TTL, A rdata, TXT, SOA serial); queries are TXT/MX/NS/referral/NXDOMAIN/wildcard/SOA so answer, authority and additional sections all carry stamps. (1) scheduled interleavings through the verif yield points: one query parked at each of its 7 points x a reload run to each of its 4 points or to completion x reload kinds {full ok, partial ok, missing path, unreadable, missing validation key, full/partial with a 1 ns reload timeout} x {cdb, rdb-v1, rdb-v2} x cache on/off; (2) sequential chains of mixed reloads; (3) free-running stress (8 clients + reloader, race-detector build). Every recorded history (call/return times at the client boundary, one monotonic clock) is checked offline: (i) one generation per response, (ii) no older generation after a successful reload returned and none from the future, (iii) per-client monotonic, (iv) the target of a failed reload is never observed. non-trivial = scenario in which the query really was parked at its point while the reload ran; distinct by hook-point sequence")
+	r.SetRule("every record of generation g carries the stamp g (TTL, A rdata, TXT, SOA serial); queries are TXT/MX/NS/referral/NXDOMAIN/wildcard/SOA so answer, authority and additional sections all carry stamps. (1) scheduled interleavings through the verif yield points: one query parked at each of its 7 points x a reload run to each of its 4 points or to completion x reload kinds {full ok, partial ok, missing path, unreadable, missing validation key, full/partial with a 1 ns reload timeout} x {cdb, rdb-v1, rdb-v2} x cache on/off; (2) sequential chains of mixed reloads, also with the successful reloads requested through reload/switchdb files in a watched control directory (completion observed as the removal of the file); (3) free-running stress (8 clients + reloader, race-detector build). Every recorded history (call/return times at the client boundary, one monotonic clock) is checked offline: (i) one generation per response, (ii) no older generation after a successful reload returned and none from the future, (iii) per-client monotonic, (iv) the target of a failed reload is never observed. non-trivial = scenario in which the query really was parked at its point while the reload ran; distinct by hook-point sequence")
 	r.Assume("generations increase along the workload and every attempted target generation is unique; a 5 s park timeout only classifies a point as 'not on this query's path', it never decides a verdict")
 	type childOut struct {
 		res *childResult
@@ -262,7 +291,12 @@ func runC05(r *report.Run) {
 	// sequential chains (rule v)
 	for i := 0; i < r.Pick(2, 20); i++ {
 		for _, b := range harness.Backends {
-			c05Chain(r, b, r.Seed*31+int64(i), r.Pick(10, 25))
+			c05Chain(r, b, r.Seed*31+int64(i), r.Pick(10, 25), false)
+		}
+	}
+	for i := 0; i < r.Pick(1, 6); i++ {
+		for _, b := range harness.Backends {
+			c05Chain(r, b, r.Seed*37+int64(i), r.Pick(10, 25), true)
 		}
 	}
 	// free-running stress in the race build
